@@ -1106,7 +1106,7 @@ def run(ctx):
     run_cases(ctx, corpus_cases())
     run_cases(ctx, corpus_histories())
     run_cases(ctx, debug_cases())
-    run_cases(ctx, container_cases(ctx, 2 if ctx.quick else 10, 12 if ctx.quick else 60,
+    run_cases(ctx, container_cases(ctx, 2 if ctx.quick else 6, 12 if ctx.quick else 60,
                                    ['csv', 'fits', 'db', 'vot', 'reg'] if ctx.quick else ALL_EXTS + ['reg', 'ann']))
     run_cases(ctx, same_stat_cases(ctx, 2 if ctx.quick else 12, 10 if ctx.quick else 80))
     if ctx.quick:
@@ -1116,7 +1116,7 @@ def run(ctx):
         run_cases(ctx, sized_cases(ctx, [('csv', 66 << 10), ('csv', int(0.95 * MiB)), ('csv', int(1.3 * MiB)),
                                          ('tab', int(0.95 * MiB)), ('tab', int(1.3 * MiB))]))
     else:
-        run_cases(ctx, random_cases(ctx, 240, 600, ALL_EXTS))
+        run_cases(ctx, random_cases(ctx, 130, 600, ALL_EXTS))
         run_cases(ctx, history_cases(ctx, 30, 200, ALL_EXTS + ['sqlite']))
         MiB = 1 << 20
         tg = [(e, sz) for e in ('csv', 'tab', 'tex') for sz in (2 << 10, 66 << 10, int(0.95 * MiB), int(1.05 * MiB),
